@@ -1618,6 +1618,11 @@ package engine
 //@   nosafety
 //@   at-call Call requires[solves-the-goal-in-the-callers-environment] a0 == vm && a1 == goal && a3 == env
 //@   at-call Unify requires[the-result-is-unified-in-the-callers-environment] a0 == vm && a1 == instances && a3 == k && a4 == env
+//@   bind lst = List#1
+//@   bind fok, ferr = (*Promise).Force#1
+//@   at-call List requires[the-list-of-all-the-answers-collected] a0 == answers
+//@   at-call Unify requires[with-the-list-of-answers] a2 == lst
+//@   ensures[an-error-of-the-goal-is-the-error-of-findall] called(ferr) && ferr != nil ==> !called(lst)
 
 //@ func FindAll$1$1
 //@   property C11
@@ -1625,7 +1630,9 @@ package engine
 //@   bind c, cerr = renamedCopy#1
 //@   at-call renamedCopy requires[a-copy-of-the-template-as-instantiated-by-this-solution] a0 == template && a2 == param(0)
 //@   at-call append requires[answers-are-kept-in-solution-order] a0 == answers && len(a1) == 1 && a1[0] == c
+//@   bind grown = append#1
 //@   ensures[asks-for-the-next-solution] cerr == nil ==> result == falsePromise
+//@   ensures[every-solution-is-recorded] cerr == nil ==> called(grown) && answers == grown
 
 //@ ---------------------------------------------------------------- the binding store and unification (C02)
 
